@@ -84,6 +84,9 @@ pub struct Plan {
     /// (offset, image): when the read position first reaches `offset`, the updater atomically
     /// installs `image` at the path. The open handle keeps the content it was opened on.
     pub replace_at: Option<(usize, usize)>,
+    /// The updater installs this image at the path right before this load's `open` binds.
+    #[serde(default)]
+    pub replace_before_open: Option<usize>,
 }
 
 impl Plan {
@@ -95,6 +98,7 @@ impl Plan {
             + self.hard.len()
             + self.open_fail.is_some() as usize
             + self.replace_at.is_some() as usize
+            + self.replace_before_open.is_some() as usize
     }
 }
 
@@ -148,6 +152,9 @@ pub struct Scenario {
     /// Index (into the pool handed to the executor) of the image on disk at the start.
     pub initial: usize,
     pub ops: Vec<Op>,
+    /// What `stat` on the real path reports during this run (see `RealDisk::stat_lies`).
+    #[serde(default)]
+    pub stat_lies: u8,
 }
 
 /// What the generator knows about each pool image.
@@ -265,6 +272,9 @@ fn gen_plan(rng: &mut Rng, info: &PoolInfo, kinds: u32, density: u64, n_pool_cho
     if kinds & K_REPLACE_MID != 0 && rng.chance(1, 3) {
         let off = aimed_offset(rng, info);
         p.replace_at = Some((off, *rng.pick(n_pool_choices)));
+    }
+    if kinds & K_REPLACE_MID != 0 && rng.chance(1, 8) {
+        p.replace_before_open = Some(*rng.pick(n_pool_choices));
     }
     // density/8 is the probability that this load carries an error-returning event at all.
     if !rng.chance(density, 8) {
@@ -445,6 +455,7 @@ pub fn generate(seed: u64, run_index: u64, infos: &[PoolInfo]) -> Scenario {
             };
             let mut plan = gen_plan(&mut rng, &infos[image], kinds & !K_REPLACE_MID, density, &imgs);
             plan.replace_at = None;
+            plan.replace_before_open = None;
             // many yield points: small-to-medium chunks
             plan.chunks = match rng.below(4) {
                 0 => vec![rng.urange(16, 64)],
@@ -533,8 +544,16 @@ pub fn generate(seed: u64, run_index: u64, infos: &[PoolInfo]) -> Scenario {
             full: false,
     });
 
+    // One run in eight lives in a world where the size `stat` reports is not the content length.
+    let stat_lies = match (stratum, rng.below(16)) {
+        (Stratum::ByteSweep(_), _) => 0,
+        (_, 0) => 1,
+        (_, 1) => 2,
+        _ => 0,
+    };
     Scenario {
         seed,
+        stat_lies,
         stratum: match stratum {
             Stratum::ByteSweep(i) => format!("bytesweep@{i}"),
             Stratum::Quiet => "quiet".into(),
